@@ -22,6 +22,15 @@ relation the property is about. Theorems:
   `intermediate_widening_refused`, `declaration_not_inherited` (an ancestor's `@override`
   declaration does not cover a descendant), `new_field_below_forbidding_parent_refused`
   (required, `Optional` or defaulted: no new field below a parent that forbids extras).
+* `loads_examine_every_ancestor` — load order does not matter: after any sequence of plugin loads
+  (`loadPlugin`/`loadAll`: `check_types` *without* `recheck`, the `__types_checked__` marks of the
+  earlier loads kept) none of which was refused, every loaded class and every class up its
+  inheritance chain has passed `check_allowed_types` and `check_overrides` (invariant `MarksOk`,
+  `checkTypesF_marksOk`); `load_examines_unmarked` (a mark is per class: a class without a mark of
+  its own is examined whatever else is marked), `child_refused_whatever_is_marked`;
+  `refused_class_passes_next_load` (pinned behaviour: the mark survives a refusal).
+* `Extends` / `child_valid_in_parent` also cover the "marked subclass" pattern: a field of the base
+  pinned by a constant of the child (`add_const_fields` over a Literal field).
 * `installedStrings_sound_except`, `qualhashsum_not_subtype` — the class table of the installed
   phantom string types is sound except for the edge `QualHashsumStr < HashsumStr` (known
   finding F12: the subclass *replaces* the pattern).
@@ -207,15 +216,22 @@ theorem literal_superset_not_subtype (T : Table) :
 * every field of the base is a field of the class, with a type in `Sub` with the inherited one
   (unchanged, or overridden and accepted by `is_subtype`), and where the class allows the
   field to be absent the base does too;
+  or the class pins the field with a constant (`add_const_fields` over a Literal field: the
+  "marked subclass" pattern) whose value the inherited type accepts;
 * the constants of the base are constants of the class;
-* if the base forbids extra fields, so does the class, and it adds neither fields nor constants. -/
+* if the base forbids extra fields, so does the class, and it adds neither fields nor constants
+  (a constant that pins an inherited field is not new). -/
 def Extends (env : Env) (ec ep : Extra) (fsc fsp : List Field) (csc csp : List (Str × Json)) : Prop :=
-  (∀ n tg reqg dg, Field.mk n tg reqg dg ∈ fsp → ∃ t' req' d', Field.mk n t' req' d' ∈ fsc ∧ Sub env t' tg ∧
-      ((req' = false ∧ d' = none) →
-        (reqg = false ∧ (dg = none ∨ ∃ dj w, dg = some dj ∧ decode env tg dj = .ok w)))) ∧
+  (∀ n tg reqg dg, Field.mk n tg reqg dg ∈ fsp →
+      (∃ t' req' d', Field.mk n t' req' d' ∈ fsc ∧ Sub env t' tg ∧
+        ((req' = false ∧ d' = none) →
+          (reqg = false ∧ (dg = none ∨ ∃ dj w, dg = some dj ∧ decode env tg dj = .ok w)))) ∨
+      -- the "marked subclass" pattern: `add_const_fields` turned the field into a constant whose
+      -- value the inherited type accepts (`decorators.py:96-110`)
+      ((∀ f ∈ fsc, fieldName f ≠ n) ∧ ∃ j, lookup n csc = some j ∧ accepts env tg j = true)) ∧
   (∀ k, hasKey k csp = true → hasKey k csc = true) ∧
   (ep = .forbid → ec = .forbid ∧ (∀ f ∈ fsc, ∃ g ∈ fsp, fieldName g = fieldName f) ∧
-      (∀ k, hasKey k csc = true → hasKey k csp = true))
+      (∀ k, hasKey k csc = true → hasKey k csp = true ∨ ∃ g ∈ fsp, fieldName g = k))
 
 theorem hasKey_of_mem (p : Str × Json) (l : List (Str × Json)) (h : p ∈ l) : hasKey p.1 l = true :=
   List.any_eq_true.mpr ⟨p, h, by simp⟩
@@ -236,19 +252,34 @@ theorem child_valid_in_parent (env : Env) (nc np : Str) (ec ep : Extra) (fsc fsp
   have hall : ∀ g ∈ fsp, ∃ r, decodeField env g (encodeFields fvs ++ (csc ++ xs)) = .ok r := by
     intro g hg
     obtain ⟨n, tg, reqg, dg⟩ := g
-    obtain ⟨t', req', d', hmem, hsub, hopt⟩ := hF n tg reqg dg hg
-    obtain ⟨w, hw, hvw⟩ := ValidFs_mem env fsc fvs hfs _ hmem
-    have hl := hlook _ hw
-    simp only [fieldName] at hl hw
-    simp only [ValidF] at hvw
-    rcases hvw with ⟨rfl, hr, hd⟩ | ⟨hne, hval⟩
-    · obtain ⟨hreq, hdg⟩ := hopt ⟨hr, hd⟩
-      simp only [encOpt] at hl
-      rcases hdg with rfl | ⟨dj, x, rfl, hx⟩
-      · exact ⟨(n, .none), by simp [decodeField, hl, hreq]⟩
-      · exact ⟨(n, x), by simp [decodeField, hl, hreq, hx, mapOk]⟩
-    · rw [encOpt_of_ne_none w hne] at hl
-      obtain ⟨x, hx⟩ := (accepts_iff env tg _).mp (hsub w hval)
+    rcases hF n tg reqg dg hg with ⟨t', req', d', hmem, hsub, hopt⟩ | ⟨hnf, j, hj, hacc⟩
+    · obtain ⟨w, hw, hvw⟩ := ValidFs_mem env fsc fvs hfs _ hmem
+      have hl := hlook _ hw
+      simp only [fieldName] at hl hw
+      simp only [ValidF] at hvw
+      rcases hvw with ⟨rfl, hr, hd⟩ | ⟨hne, hval⟩
+      · obtain ⟨hreq, hdg⟩ := hopt ⟨hr, hd⟩
+        simp only [encOpt] at hl
+        rcases hdg with rfl | ⟨dj, x, rfl, hx⟩
+        · exact ⟨(n, .none), by simp [decodeField, hl, hreq]⟩
+        · exact ⟨(n, x), by simp [decodeField, hl, hreq, hx, mapOk]⟩
+      · rw [encOpt_of_ne_none w hne] at hl
+        obtain ⟨x, hx⟩ := (accepts_iff env tg _).mp (hsub w hval)
+        exact ⟨(n, x), by simp [decodeField, hl, hx, mapOk]⟩
+    · -- the field is a constant of the child: the dump carries the constant
+      have h1 : lookup n (encodeFields fvs) = none := by
+        apply lookup_none_of_notin
+        intro p hp e
+        obtain ⟨q, hq, e'⟩ := encodeFields_keys fvs p hp
+        have hmem : q.1 ∈ fsc.map fieldName := by
+          rw [← hkeys]; exact List.mem_map.mpr ⟨q, hq, rfl⟩
+        obtain ⟨f, hf, hfn⟩ := List.mem_map.mp hmem
+        exact hnf f hf (by rw [hfn, e', e])
+      have hl : lookup n (encodeFields fvs ++ (csc ++ xs)) = some j := by
+        rw [lookup_append, h1]
+        simp only
+        rw [lookup_append, hj]
+      obtain ⟨x, hx⟩ := (accepts_iff env tg j).mp hacc
       exact ⟨(n, x), by simp [decodeField, hl, hx, mapOk]⟩
   obtain ⟨pf, hpf⟩ := decodeFields_ok_of_all env fsp _ hall
   simp only [encode, hxs', decode, asDict, List.append_assoc, hpf]
@@ -273,8 +304,11 @@ theorem child_valid_in_parent (env : Env) (nc np : Str) (ec ep : Extra) (fsc fsp
         have : fsp.any (fun f => fieldName f == p.1) = true :=
           List.any_eq_true.mpr ⟨g, hg, by simp [hgn, hfn]⟩
         simp [this]
-      · have := hsubC p.1 (hasKey_of_mem p csc hp)
-        simp [this]
+      · rcases hsubC p.1 (hasKey_of_mem p csc hp) with h | ⟨g, hg, hgn⟩
+        · simp [h]
+        · have : fsp.any (fun f => fieldName f == p.1) = true :=
+            List.any_eq_true.mpr ⟨g, hg, by simp [hgn]⟩
+          simp [this]
     rw [hempty]
     exact ⟨_, rfl⟩
 
@@ -587,13 +621,13 @@ example : Extends envEx .ignore .allow
   · intro n tg reqg dg hmem
     simp only [List.mem_cons, Field.mk.injEq, List.not_mem_nil, or_false] at hmem
     rcases hmem with ⟨rfl, rfl, rfl, rfl⟩ | ⟨rfl, rfl, rfl, rfl⟩
-    · refine ⟨.cstr .mime, true, none, by simp, ?_, by simp⟩
+    · refine Or.inl ⟨.cstr .mime, true, none, by simp, ?_, by simp⟩
       intro v hv
       simp only [Valid] at hv
       obtain ⟨s, rfl, hs⟩ := hv
       have := mime_nes s hs
       simp [accepts, encode, decode, recog, this]
-    · exact ⟨.int, true, none, by simp, Sub_refl envEx .int, by simp⟩
+    · exact Or.inl ⟨.int, true, none, by simp, Sub_refl envEx .int, by simp⟩
   · intro k hk
     simpa [hasKey] using hk
   · intro h; cases h
@@ -603,5 +637,417 @@ example : decode envEx baseTy (encode (.obj "Child".toList
     [("@type".toList, .str "C".toList)] [])) =
     .ok (.obj "Base".toList [("f".toList, .str "a/b".toList), ("g".toList, .int 0)]
       [("@type".toList, .str "B".toList)] []) := by rfl
+
+/-- … and for the "marked subclass" pattern: the base has the discriminator
+`kind : Literal["circle", "square"]`, the child pins it with `add_const_fields({"kind": "circle"})`
+below a base that forbids extra fields -/
+example : Extends envEx .forbid .forbid
+    [.mk "size".toList .int true none]
+    [.mk "kind".toList (.lit [.str "circle".toList, .str "square".toList]) true none, .mk "size".toList .int true none]
+    [("kind".toList, .str "circle".toList)] [] := by
+  refine ⟨?_, ?_, ?_⟩
+  · intro n tg reqg dg hmem
+    simp only [List.mem_cons, Field.mk.injEq, List.not_mem_nil, or_false] at hmem
+    rcases hmem with ⟨rfl, rfl, rfl, rfl⟩ | ⟨rfl, rfl, rfl, rfl⟩
+    · refine Or.inr ⟨?_, .str "circle".toList, rfl, rfl⟩
+      intro f hf
+      simp only [List.mem_cons, List.not_mem_nil, or_false] at hf
+      subst hf
+      decide
+    · exact Or.inl ⟨.int, true, none, by simp, Sub_refl envEx .int, by simp⟩
+  · intro k hk
+    simp [hasKey] at hk
+  · intro _
+    refine ⟨rfl, ?_, ?_⟩
+    · intro f hf
+      simp only [List.mem_cons, List.not_mem_nil, or_false] at hf
+      subst hf
+      exact ⟨_, by simp, rfl⟩
+    · intro k hk
+      right
+      simp only [hasKey, List.any_cons, List.any_nil, Bool.or_false, beq_iff_eq] at hk
+      exact ⟨_, List.mem_cons_self .., by simpa [fieldName] using hk⟩
+
+/-- whatever the input carries in the constant field (`override_consts`: "ignored on load"), the
+child instance holds the constant, and its dump is accepted by the base -/
+example : decode envEx (.model "Circle".toList .forbid [.mk "size".toList .int true none] [("kind".toList, .str "circle".toList)])
+      (.obj [("size".toList, .int 4), ("kind".toList, .str "triangle".toList)]) =
+    .ok (.obj "Circle".toList [("size".toList, .int 4)] [("kind".toList, .str "circle".toList)] []) := by rfl
+
+/-! ## load order: `check_types` without `recheck`, marks of earlier loads -/
+
+theorem checkTypesF_succ_fst (T : Table) (fuel : Nat) (marks : List Str) (n : Str) (c : ClassDef)
+    (hn : marks.contains n = false) (hf : find T n = some c) :
+    (checkTypesF T (fuel + 1) marks n).1 =
+      (List.foldl (ctStep T fuel) (n :: marks, .ok ()) (ctDeps T c n)).1 := by
+  rw [checkTypesF_succ T fuel marks n c hn hf]
+  split
+  · rfl
+  · split <;> rfl
+
+theorem checkTypesF_succ_snd_ok (T : Table) (fuel : Nat) (marks : List Str) (n : Str) (c : ClassDef)
+    (hn : marks.contains n = false) (hf : find T n = some c)
+    (h : (checkTypesF T (fuel + 1) marks n).2 = .ok ()) :
+    (List.foldl (ctStep T fuel) (n :: marks, .ok ()) (ctDeps T c n)).2 = .ok () ∧
+      checkAllowed T c = .ok () ∧ checkOverrides T c = .ok () := by
+  rw [checkTypesF_succ T fuel marks n c hn hf] at h
+  generalize List.foldl (ctStep T fuel) (n :: marks, Except.ok ()) (ctDeps T c n) = R at h
+  cases hR2 : R.2 with
+  | error e => simp [hR2] at h
+  | ok u =>
+    cases u
+    simp only [hR2] at h
+    cases hA : checkAllowed T c with
+    | error e => simp [hA] at h
+    | ok u => cases u; exact ⟨rfl, rfl, by simpa [hA] using h⟩
+
+theorem checkTypesF_seen (T : Table) (fuel : Nat) (marks : List Str) (n : Str)
+    (hc : marks.contains n = true) : checkTypesF T (fuel + 1) marks n = (marks, .ok ()) := by
+  rw [checkTypesF]
+  simp only [hc, if_true]
+
+theorem checkTypesF_unknown (T : Table) (fuel : Nat) (marks : List Str) (n : Str)
+    (hc : marks.contains n = false) (hf : find T n = none) :
+    checkTypesF T (fuel + 1) marks n = (marks, .ok ()) := by
+  rw [checkTypesF]
+  simp only [hc, hf, Bool.false_eq_true, if_false]
+
+theorem foldl_ctStep_mono (T : Table) (fuel : Nat)
+    (ih : ∀ (marks : List Str) (n : Str), ∀ b ∈ marks, b ∈ (checkTypesF T fuel marks n).1) :
+    ∀ (ds : List Str) (acc : List Str × Except Refusal Unit), ∀ b ∈ acc.1,
+      b ∈ (List.foldl (ctStep T fuel) acc ds).1 := by
+  intro ds
+  induction ds with
+  | nil => intro acc b hb; exact hb
+  | cons d ds ihd =>
+    intro acc b hb
+    simp only [List.foldl]
+    apply ihd
+    unfold ctStep
+    split
+    · exact hb
+    · exact ih _ _ b hb
+
+/-- marks are never taken away -/
+theorem checkTypesF_mono (T : Table) : ∀ (fuel : Nat) (marks : List Str) (n : Str),
+    ∀ b ∈ marks, b ∈ (checkTypesF T fuel marks n).1 := by
+  intro fuel
+  induction fuel with
+  | zero => intro marks n b hb; simpa [checkTypesF] using hb
+  | succ fuel ih =>
+    intro marks n b hb
+    cases hc : marks.contains n with
+    | true => rw [checkTypesF_seen T fuel marks n hc]; exact hb
+    | false =>
+      cases hf : find T n with
+      | none => rw [checkTypesF_unknown T fuel marks n hc hf]; exact hb
+      | some c =>
+        rw [checkTypesF_succ_fst T fuel marks n c hc hf]
+        exact foldl_ctStep_mono T fuel ih _ _ b (List.mem_cons_of_mem _ hb)
+
+/-- a class of the table is marked once `check_types` has been called on it -/
+theorem checkTypesF_marks_self (T : Table) (fuel : Nat) (marks : List Str) (n : Str) :
+    find T n = none ∨ n ∈ (checkTypesF T (fuel + 1) marks n).1 := by
+  cases hc : marks.contains n with
+  | true =>
+    right
+    rw [checkTypesF_seen T fuel marks n hc]
+    simpa using hc
+  | false =>
+    cases hf : find T n with
+    | none => left; rfl
+    | some c =>
+      right
+      rw [checkTypesF_succ_fst T fuel marks n c hc hf]
+      exact foldl_ctStep_mono T fuel (checkTypesF_mono T fuel) _ _ n (List.mem_cons_self ..)
+
+/-- classes of the table that carry no mark yet (the measure that bounds the depth of the walk) -/
+def unexamined (T : Table) (marks : List Str) : Nat :=
+  (T.filter (fun c => !marks.contains c.name)).length
+
+theorem unexamined_le (T : Table) (marks : List Str) : unexamined T marks ≤ T.length :=
+  List.length_filter_le _ _
+
+theorem length_filter_le_of_imp {α : Type} (p q : α → Bool) (h : ∀ a, p a = true → q a = true) :
+    ∀ l : List α, (l.filter p).length ≤ (l.filter q).length := by
+  intro l
+  induction l with
+  | nil => simp
+  | cons a l ih =>
+    cases hp : p a with
+    | true => simp only [List.filter_cons, hp, h a hp, if_true, List.length_cons]; omega
+    | false =>
+      cases hq : q a <;> simp only [List.filter_cons, hp, hq, if_true, Bool.false_eq_true, if_false, List.length_cons] <;> omega
+
+theorem length_filter_lt_of_imp {α : Type} (p q : α → Bool) (h : ∀ a, p a = true → q a = true) :
+    ∀ l : List α, (∃ a ∈ l, p a = false ∧ q a = true) → (l.filter p).length < (l.filter q).length := by
+  intro l
+  induction l with
+  | nil => rintro ⟨a, ha, _⟩; cases ha
+  | cons a l ih =>
+    rintro ⟨b, hb, hpb, hqb⟩
+    rcases List.mem_cons.mp hb with e | hb'
+    · subst e
+      have := length_filter_le_of_imp p q h l
+      simp only [List.filter_cons, hpb, hqb, if_true, Bool.false_eq_true, if_false, List.length_cons]
+      omega
+    · have := ih ⟨b, hb', hpb, hqb⟩
+      cases hp : p a with
+      | true => simp only [List.filter_cons, hp, h a hp, if_true, List.length_cons]; omega
+      | false =>
+        cases hq : q a <;> simp only [List.filter_cons, hp, hq, if_true, Bool.false_eq_true, if_false, List.length_cons] <;> omega
+
+theorem unexamined_mono (T : Table) (marks marks' : List Str) (h : ∀ b ∈ marks, b ∈ marks') :
+    unexamined T marks' ≤ unexamined T marks := by
+  unfold unexamined
+  apply length_filter_le_of_imp
+  intro c hc
+  simp only [Bool.not_eq_true', List.contains_eq_mem, decide_eq_false_iff_not] at hc ⊢
+  exact fun hm => hc (h _ hm)
+
+theorem find_name (T : Table) (n : Str) (c : ClassDef) (h : find T n = some c) : c.name = n := by
+  have := List.find?_some h
+  simpa using this
+
+theorem unexamined_lt (T : Table) (marks : List Str) (n : Str) (c : ClassDef)
+    (hn : n ∉ marks) (hf : find T n = some c) : unexamined T (n :: marks) < unexamined T marks := by
+  unfold unexamined
+  apply length_filter_lt_of_imp
+  · intro a ha
+    simp only [Bool.not_eq_true', List.contains_eq_mem, decide_eq_false_iff_not, List.mem_cons, not_or] at ha ⊢
+    exact ha.2
+  · refine ⟨c, List.mem_of_find?_eq_some hf, ?_, ?_⟩
+    · simp [find_name T n c hf]
+    · simp [find_name T n c hf, hn]
+
+/-- **What a mark stands for.** Every marked class that is not still under examination
+(`pending`: the classes on the stack of the walk) passed `check_allowed_types` and
+`check_overrides`, and its base class is marked as well. -/
+def MarksOk (T : Table) (pending marks : List Str) : Prop :=
+  ∀ b ∈ marks, b ∉ pending → ∀ cb, find T b = some cb →
+    checkAllowed T cb = .ok () ∧ checkOverrides T cb = .ok () ∧
+    ∀ p, cb.parent = some p → p ∈ marks ∨ find T p = none
+
+theorem foldl_ctStep_marksOk (T : Table) (fuel : Nat) (pending : List Str)
+    (ih : ∀ (marks : List Str) (n : Str), unexamined T marks < fuel → MarksOk T pending marks →
+      (checkTypesF T fuel marks n).2 = .ok () → MarksOk T pending (checkTypesF T fuel marks n).1) :
+    ∀ (ds : List Str) (acc : List Str × Except Refusal Unit), unexamined T acc.1 < fuel →
+      MarksOk T pending acc.1 → (List.foldl (ctStep T fuel) acc ds).2 = .ok () →
+      MarksOk T pending (List.foldl (ctStep T fuel) acc ds).1 := by
+  intro ds
+  induction ds with
+  | nil => intro acc _ h _; exact h
+  | cons d ds ihd =>
+    intro acc hm h hok
+    obtain ⟨s, r⟩ := acc
+    cases r with
+    | error e => rw [foldl_ctStep_error] at hok; cases hok
+    | ok u =>
+      cases u
+      simp only [List.foldl] at hok ⊢
+      have hstep : ctStep T fuel (s, .ok ()) d = checkTypesF T fuel s d := rfl
+      rw [hstep] at hok ⊢
+      cases hr : (checkTypesF T fuel s d).2 with
+      | error e =>
+        have : checkTypesF T fuel s d = ((checkTypesF T fuel s d).1, .error e) := by rw [← hr]
+        rw [this, foldl_ctStep_error] at hok
+        cases hok
+      | ok u =>
+        cases u
+        apply ihd _ _ _ hok
+        · exact Nat.lt_of_le_of_lt (unexamined_mono T s _ (checkTypesF_mono T fuel s d)) hm
+        · exact ih s d hm h hr
+
+/-- the walk keeps the meaning of the marks, as long as it ends without a refusal -/
+theorem checkTypesF_marksOk (T : Table) : ∀ (fuel : Nat) (pending marks : List Str) (n : Str),
+    unexamined T marks < fuel → MarksOk T pending marks → (checkTypesF T fuel marks n).2 = .ok () →
+    MarksOk T pending (checkTypesF T fuel marks n).1 := by
+  intro fuel
+  induction fuel with
+  | zero => intro _ _ _ h; omega
+  | succ fuel ih =>
+    intro pending marks n hm h hok
+    cases hc : marks.contains n with
+    | true => rw [checkTypesF_seen T fuel marks n hc]; exact h
+    | false =>
+      cases hf : find T n with
+      | none => rw [checkTypesF_unknown T fuel marks n hc hf]; exact h
+      | some c =>
+        have hn : n ∉ marks := by simpa using hc
+        obtain ⟨hfold, hA, hO⟩ := checkTypesF_succ_snd_ok T fuel marks n c hc hf hok
+        rw [checkTypesF_succ_fst T fuel marks n c hc hf]
+        have hlt := unexamined_lt T marks n c hn hf
+        have hm' : unexamined T (n :: marks) < fuel := by omega
+        have h0 : MarksOk T (n :: pending) (n :: marks) := by
+          intro b hb hbp cb hcb
+          have hbn : b ≠ n := fun e => hbp (e ▸ List.mem_cons_self ..)
+          have hbm : b ∈ marks := by
+            rcases List.mem_cons.mp hb with e | hb'
+            · exact absurd e hbn
+            · exact hb'
+          obtain ⟨a1, a2, a3⟩ := h b hbm (fun hp => hbp (List.mem_cons_of_mem _ hp)) cb hcb
+          refine ⟨a1, a2, fun p hp => ?_⟩
+          rcases a3 p hp with hpm | hpn
+          · exact Or.inl (List.mem_cons_of_mem _ hpm)
+          · exact Or.inr hpn
+        have hR := foldl_ctStep_marksOk T fuel (n :: pending) (fun m d => ih (n :: pending) m d)
+          (ctDeps T c n) (n :: marks, .ok ()) hm' h0 hfold
+        intro b hb hbp cb hcb
+        by_cases hbn : b = n
+        · subst hbn
+          rw [hf] at hcb
+          cases hcb
+          refine ⟨hA, hO, fun p hp => ?_⟩
+          -- the base class is the first dependency the walk descends into
+          have hfuel : ∃ f', fuel = f' + 1 := ⟨fuel - 1, by omega⟩
+          obtain ⟨f', rfl⟩ := hfuel
+          rcases checkTypesF_marks_self T f' (b :: marks) p with hnone | hmem
+          · exact Or.inr hnone
+          · left
+            simp only [ctDeps, hp, List.singleton_append, List.foldl]
+            apply foldl_ctStep_mono T (f' + 1) (checkTypesF_mono T (f' + 1))
+            exact hmem
+        · exact hR b hb (fun hp => by
+            rcases List.mem_cons.mp hp with e | hp'
+            · exact hbn e
+            · exact hbp hp') cb hcb
+
+/-- one plugin load keeps the meaning of the marks -/
+theorem loadPlugin_marksOk (T : Table) (marks : List Str) (n : Str) (h : MarksOk T [] marks)
+    (hok : (loadPlugin T marks n).2 = .ok ()) : MarksOk T [] (loadPlugin T marks n).1 := by
+  apply checkTypesF_marksOk T _ [] marks n _ h hok
+  have := unexamined_le T marks
+  omega
+
+theorem loadAll_marksOk (T : Table) : ∀ (loads marks : List Str), MarksOk T [] marks →
+    (∀ r ∈ (loadAll T marks loads).2, r = .ok ()) → MarksOk T [] (loadAll T marks loads).1 := by
+  intro loads
+  induction loads with
+  | nil => intro marks h _; exact h
+  | cons n ns ih =>
+    intro marks h hall
+    simp only [loadAll] at hall ⊢
+    apply ih _ (loadPlugin_marksOk T marks n h (hall _ (List.mem_cons_self ..)))
+    intro r hr
+    exact hall r (List.mem_cons_of_mem _ hr)
+
+theorem loadAll_mono (T : Table) : ∀ (loads marks : List Str), ∀ b ∈ marks, b ∈ (loadAll T marks loads).1 := by
+  intro loads
+  induction loads with
+  | nil => intro marks b hb; exact hb
+  | cons n ns ih =>
+    intro marks b hb
+    simp only [loadAll]
+    exact ih _ b (checkTypesF_mono T _ marks n b hb)
+
+theorem loadAll_marks_loaded (T : Table) : ∀ (loads marks : List Str) (n : Str), n ∈ loads →
+    find T n = none ∨ n ∈ (loadAll T marks loads).1 := by
+  intro loads
+  induction loads with
+  | nil => intro _ n hn; cases hn
+  | cons m ms ih =>
+    intro marks n hn
+    simp only [loadAll]
+    rcases List.mem_cons.mp hn with e | hn'
+    · subst e
+      rcases checkTypesF_marks_self T (2 * T.length + 1) marks n with h | h
+      · exact Or.inl h
+      · exact Or.inr (loadAll_mono T ms _ n h)
+    · exact ih _ n hn'
+
+/-- with marks that mean what they should, the whole inheritance chain of a marked class is marked -/
+theorem marksOk_chain (T : Table) (marks : List Str) (h : MarksOk T [] marks) :
+    ∀ (k : Nat) (b a : Str) (ca : ClassDef), b ∈ marks → nthAnc T k b = some a → find T a = some ca →
+      a ∈ marks := by
+  intro k
+  induction k with
+  | zero =>
+    intro b a ca hb ha _
+    simp only [nthAnc, Option.some.injEq] at ha
+    exact ha ▸ hb
+  | succ k ih =>
+    intro b a ca hb ha hfa
+    simp only [nthAnc] at ha
+    cases hfb : find T b with
+    | none => simp [hfb] at ha
+    | some cb =>
+      simp only [hfb] at ha
+      cases hp : cb.parent with
+      | none => simp [hp] at ha
+      | some p =>
+        simp only [hp] at ha
+        rcases (h b hb (by simp) cb hfb).2.2 p hp with hpm | hpn
+        · exact ih p a ca hpm ha hfa
+        · -- a dangling base name: the chain ends there
+          cases k with
+          | zero =>
+            simp only [nthAnc, Option.some.injEq] at ha
+            rw [← ha, hpn] at hfa
+            cases hfa
+          | succ k => simp [nthAnc, hpn] at ha
+
+/-- **Load order does not matter.** After any sequence of plugin loads (`check_types` without
+`recheck`, in any order, with repetitions, parents before or after their children) none of
+which was refused, every class that was loaded and every class up its inheritance chain —
+plugin or plain intermediate class, marked by this load or by an earlier one — has passed
+`check_allowed_types` and `check_overrides`. No bound on the number of loads or classes. -/
+theorem loads_examine_every_ancestor (T : Table) (loads : List Str)
+    (hall : ∀ r ∈ (loadAll T [] loads).2, r = .ok ()) (n : Str) (hn : n ∈ loads)
+    (k : Nat) (a : Str) (ca : ClassDef) (ha : nthAnc T k n = some a) (hfa : find T a = some ca) :
+    checkAllowed T ca = .ok () ∧ checkOverrides T ca = .ok () := by
+  have hM := loadAll_marksOk T loads [] (by intro b hb; cases hb) hall
+  have hnm : n ∈ (loadAll T [] loads).1 := by
+    rcases loadAll_marks_loaded T loads [] n hn with hnone | hmem
+    · cases k with
+      | zero =>
+        simp only [nthAnc, Option.some.injEq] at ha
+        rw [← ha, hnone] at hfa
+        cases hfa
+      | succ k => simp [nthAnc, hnone] at ha
+    · exact hmem
+  have ham := marksOk_chain T _ hM k n a ca hnm ha hfa
+  obtain ⟨h1, h2, _⟩ := hM a ham (by simp) ca hfa
+  exact ⟨h1, h2⟩
+
+/-- a class that carries no mark of its own is examined by its load, whatever else is marked
+(in particular its base class): the mark is per class, it is not inherited -/
+theorem load_examines_unmarked (T : Table) (marks : List Str) (n : Str) (c : ClassDef)
+    (hn : n ∉ marks) (hf : find T n = some c) (h : (loadPlugin T marks n).2 = .ok ()) :
+    checkAllowed T c = .ok () ∧ checkOverrides T c = .ok () :=
+  (checkTypesF_succ_snd_ok T (2 * T.length + 1) marks n c (by simpa using hn) hf h).2
+
+/-- `Ga.f : Int` with two children that widen `f` without declaring it -/
+def tblSibs : Table :=
+  [{ name := "Ga".toList, fields := [("f".toList, .int, none)] },
+   { name := "Ch".toList, parent := some "Ga".toList, fields := [("f".toList, .opt .int, none)] },
+   { name := "Cb".toList, parent := some "Ga".toList, fields := [("f".toList, .union [.int, .str], none)] }]
+
+theorem tblSibs_Ch : find tblSibs "Ch".toList =
+    some { name := "Ch".toList, parent := some "Ga".toList, fields := [("f".toList, .opt .int, none)] } := rfl
+
+/-- the widening child is refused whatever else is marked — its parent loaded before it, a
+sibling, nothing at all — as long as it was not itself checked before -/
+theorem child_refused_whatever_is_marked (marks : List Str) (h : "Ch".toList ∉ marks) :
+    (loadPlugin tblSibs marks "Ch".toList).2 ≠ .ok () := by
+  intro hok
+  have := (load_examines_unmarked tblSibs marks _ _ h tblSibs_Ch hok).2
+  have he : checkOverrides tblSibs { name := "Ch".toList, parent := some "Ga".toList, fields := [("f".toList, .opt .int, none)] } = .error .typeError := rfl
+  rw [he] at this
+  cases this
+
+/-- the pinned behaviour after a refusal (`core.py:371` sets the mark before the class is
+examined, nothing clears it when the examination raises): the refused class passes the next
+load unexamined — so the hypothesis "no load was refused" of `loads_examine_every_ancestor`
+cannot be dropped -/
+theorem refused_class_passes_next_load :
+    (loadPlugin tblSibs [] "Ch".toList).2 ≠ .ok () ∧
+    (loadPlugin tblSibs (loadPlugin tblSibs [] "Ch".toList).1 "Ch".toList).2 = .ok () := by
+  refine ⟨child_refused_whatever_is_marked [] (by simp), ?_⟩
+  have hmem : "Ch".toList ∈ (loadPlugin tblSibs [] "Ch".toList).1 := by
+    rcases checkTypesF_marks_self tblSibs (2 * tblSibs.length + 1) [] "Ch".toList with h | h
+    · rw [tblSibs_Ch] at h; cases h
+    · exact h
+  unfold loadPlugin at hmem ⊢
+  rw [checkTypesF_seen tblSibs _ _ _ (by simpa using hmem)]
 
 end MetadorModel.C13
